@@ -225,7 +225,12 @@ RES_RE = re.compile(r'^\[([^\]]+)\] (.*): (SUCCESS|FAILURE|UNKNOWN|ERROR)\s*$', 
 def cbmc_cmd(ob, gb, extra=(), backend=None):
     cmd = ['cbmc', gb, '--function', ob.entry, '--drop-unused-functions', '--unwinding-assertions',
            '--verbosity', '6']
-    cmd += (ob.checks if ob.checks is not None else DEFAULT_CHECKS)
+    chk = list(ob.checks if ob.checks is not None else DEFAULT_CHECKS)
+    # CBMC 6 switches its standard checks on by default: what an obligation does not ask for is switched off
+    for c in ('bounds-check', 'pointer-check', 'undefined-shift-check', 'signed-overflow-check', 'div-by-zero-check',
+              'pointer-primitive-check'):
+        if '--' + c not in chk: chk.append('--no-' + c)
+    cmd += chk
     if ob.unwind is not None: cmd += ['--unwind', str(ob.unwind)]
     uws = dict(ob.unwindset)
     if ob.unwind_rules:
@@ -307,10 +312,14 @@ def native_lib(fl, asan):
             r = sh(cc + fl + ['-c', os.path.join(REPO, 'src', s), '-o', o], timeout=600)
             return o, r
         objs = []
+        skipped = []
         with ThreadPoolExecutor(max_workers=16) as ex:
             for o, r in ex.map(one, srcs):
-                if r['rc'] != 0: return None, 'native compile failed: ' + r['err'][-1000:]
+                # units that do not exist in a profile (u64.c and its users at B_PER_W == 16) are left out;
+                # a harness that needs one of them fails at link time
+                if r['rc'] != 0: skipped.append(o); continue
                 objs.append(o)
+        if len(objs) < 20: return None, 'native compile failed for most units: ' + r['err'][-1000:]
         tmp = lib + '.tmp'
         r = sh(['ar', 'rcs', tmp] + objs)
         if r['rc'] != 0: return None, 'ar failed ' + r['err']
